@@ -18,10 +18,13 @@ EXPLANATION = (
     "get_raw(set_raw(r)) = r for every stored r; effect analysis over the call graph of save "
     "(write_to/read/clone → chunks → getters): no store to a public attribute and no in-place mutation of "
     "non-fresh state; no nondeterminism source in that call graph; loading runs with range errors downgraded. "
-    "n-fold idempotence for arbitrary files (canonicalisation of trailing -1, SLnK elision) depends on run-time "
-    "values and is not decided."
+    "a chunk that is left out depending on the value it would carry (SLnK when all slots are 0/-1) must be rebuilt "
+    "as that value by the reader: the admitted constants are compared with what the end-of-file pass appends "
+    "(today a known finding: the rebuild gives len(source.out_link_slots)). "
+    "n-fold idempotence for arbitrary files in general (canonicalisation of trailing -1, foreign link tables) "
+    "depends on run-time values and is not decided."
 )
-DECLINED = ["idempotence of load∘save for arbitrary files (trailing -1 links, SLnK elision and rebuild) — run-time values"]
+DECLINED = ["idempotence of load∘save for arbitrary foreign files beyond the elision/rebuild pair (trailing -1 links, inconsistent tables) — run-time values"]
 ASSUMPTIONS = ["call resolution by class-hierarchy analysis over rv (over-approximate)",
                "a local bound to a constructor call, copy(), [:], list(), deepcopy() or a comprehension is fresh"]
 
